@@ -4,7 +4,7 @@
    failures aggregated.  [dwf]: components exist, pairwise unrelated, arrows join distinct components.
    Proof: every generated rule is a strict rule, so C01's theorem applies to each. *)
 From Coq Require Import List Bool NArith.
-From PTA Require Import Sx Names Graph Search Rule SpecRule Diagram NamesProofs SearchProofs RuleProofs DiagramProofs.
+From PTA Require Import Sx Names Graph Search Worklist Rule WRule SpecRule Diagram WDiagram NamesProofs SearchProofs RuleProofs DiagramProofs GraphProofs WorklistProofs WRuleProofs WDiagramProofs.
 Import ListNotations.
 
 Section C07.
@@ -39,8 +39,18 @@ Proof.
   - intros [_ [[]|H]]. exact H.
   - intros [ls0 [H1 H2]]. split; [right; eauto|right; eauto].
 Qed.
+
+(* the diagram rule with every generated module rule evaluated over the transcribed worklist loops (Model/WDiagram.v)
+   terminates and has the outcome of [diagram_apply]: same class, same error, same set of report lines *)
+Theorem C07_loops_verdict : forall g, wf_graph g ->
+  (forall n p, In n (nodes g) -> In p (proper_prefixes n) -> In p (nodes g)) ->
+  (forall a b, In (a, b) (imps g) -> childb ceqb a b = false) ->
+  forall only base (d : @pdeps comp),
+  exists o, w_diagram_apply ceqb rmatch g only base d = Some o /\ outcome_equiv o (diagram_apply ceqb rmatch g only base d).
+Proof. intros g Hwf Hanc Hnh only base d. exact (w_diagram_apply_refines ceqb ceqb_spec rmatch g Hwf Hanc Hnh only base d). Qed.
 End C07.
 
+Print Assumptions C07_loops_verdict.
 Print Assumptions C07_conformance.
 Print Assumptions C07_base_module.
 Print Assumptions C07_aggregates.
